@@ -374,7 +374,10 @@ fn sd_decl(input: &str) -> IResult<&str, bool> {
 pub fn element(input: &str) -> IResult<&str, model::Element<'_>> {
     alt((
         empty_entity_tag,
-        map(tuple((stag, content, etag)), |(s, c, _)| s.set_content(c)),
+        map(
+            verify(tuple((stag, content, etag)), |(s, _, e)| s.name == *e),
+            |(s, c, _)| s.set_content(c),
+        ),
     ))(input)
 }
 
@@ -414,11 +417,8 @@ pub fn attribute(input: &str) -> IResult<&str, model::Attribute<'_>> {
 /// [\[42\] ETag](https://www.w3.org/TR/2008/REC-xml-20081126/#NT-ETag)
 ///
 /// [\[13\] ETag](https://www.w3.org/TR/2009/REC-xml-names-20091208/#NT-ETag)
-fn etag(input: &str) -> IResult<&str, ()> {
-    map(
-        delimited(tag("</"), qname, tuple((multispace0, tag(">")))),
-        |_| (),
-    )(input)
+fn etag(input: &str) -> IResult<&str, xml_nom::model::QName<'_>> {
+    delimited(tag("</"), qname, tuple((multispace0, tag(">"))))(input)
 }
 
 /// CharData? ((element | Reference | CDSect | PI | Comment) CharData?)*
